@@ -2,7 +2,7 @@
 # tools/seed_eval.sh <ID> [checks...] : confirm a sub-agent's seeded change in a fresh scratch worktree and run checks against it
 set -u
 id=$1; shift
-src=/tmp/seed_$id/_seed
+src=${SEEDSRC:-/tmp/seed_$id}/_seed; name=${SEEDNAME:-$id}
 [ -f $src/patch.diff ] || { echo "no $src/patch.diff"; exit 2; }
 export GOFLAGS=-mod=mod GOPROXY=off GOSUMDB=off GOTOOLCHAIN=local
 ev=/tmp/ev_$id
@@ -33,12 +33,13 @@ for c in "$@"; do
   echo "$out" | grep -E "^(VIOLATION|  what|INCONCLUSIVE)" | head -4 | cut -c1-260 | sed 's/^/      /'
   res="$res $c:$rc"
 done
-mkdir -p /verif/seeded/$id
-cp $src/patch.diff $src/demo_test.go /verif/seeded/$id/
-python3 - "$id" "$base_rc" "$build_rc" "$mut_rc" "$t1" "$res" <<'PY'
+mkdir -p /verif/seeded/$name
+cp $src/patch.diff $src/demo_test.go /verif/seeded/$name/
+python3 - "$name" "$base_rc" "$build_rc" "$mut_rc" "$t1" "$res" <<'PY'
 import json,sys
 id,base,build,mut,t1,res=sys.argv[1:7]
-try: m=json.load(open('/tmp/seed_%s/_seed/meta.json'%id))
+import os
+try: m=json.load(open(os.environ.get('SEEDSRC','/tmp/seed_%s'%id)+'/_seed/meta.json'))
 except Exception as e: m={"property":id,"summary":"(meta.json unreadable: %s)"%e}
 m["confirmed_by_me"]={"demo_on_original_rc":int(base),"build_rc":int(build),"demo_with_change_rc":int(mut),"existing_suite_with_change":t1,
   "checks_run (id:exit code; 1 = VIOLATION reported, 0 = missed, 2 = inconclusive)":res.split()}
